@@ -141,7 +141,8 @@ def run_case(ctx, rng, idx, params, tier):
         # C17:nat>=2^63-reported-as-negative-through-result-overload lives
         via_overload = {k for k, _, ty, _ in accepted if ty == "nat" and k % 4 == 0}
         main += "@guppy\ndef main() -> None:\n" + "".join(
-            f'    {"_result_nat" if ty == "nat" and k not in via_overload else "result"}("v{k}", p{k}())\n'
+            f'    x{k} = p{k}()\n'
+            f'    {"_result_nat" if ty == "nat" and k not in via_overload else "result"}("v{k}", x{k})\n'
             for k, _, ty, _ in accepted)
         try:
             ld2 = ctx.load(main, "litrun")
